@@ -76,10 +76,25 @@ DiffWorld(x, o) ==
                 ELSE [exp |-> x.w[n][f], obs |-> o.w[n][f]]]],
     chain |-> x.chain = o.chain, pool |-> x.pool = o.pool, body |-> x.body = o.body, nrep |-> x.nrep = o.nrep,
     reg |-> [k \in DiffF(x.reg, o.reg) |-> [exp |-> IF k \in DOMAIN x.reg THEN x.reg[k] ELSE "absent", obs |-> IF k \in DOMAIN o.reg THEN o.reg[k] ELSE "absent"]] ]
+\* Named havoc (DESIGN 2.2): the order in which one refresh/scan batch numbers several
+\* new log entries follows a HashMap / commitment order the model does not predict.
+\* Norm erases exactly that: log ids (entries become a set, output links name the entry's
+\* content instead of its id).
+NormW(wr) ==
+  LET ent(a, id) == IF TxKeyOf(a, id) \in DOMAIN wr.txs
+                    THEN [wr.txs[TxKeyOf(a, id)] EXCEPT !.id = 0] ELSE [none |-> id] IN
+  [wr EXCEPT !.txs = {[wr.txs[t] EXCEPT !.id = 0] : t \in DOMAIN wr.txs},
+             !.outs = [k \in DOMAIN wr.outs |->
+                         [o |-> [wr.outs[k] EXCEPT !.tx = 0],
+                          e |-> IF wr.outs[k].tx = NoTx THEN [none |-> -1] ELSE ent(wr.outs[k].pa, wr.outs[k].tx)]]]
+NormWorld(x) == [x EXCEPT !.w = [n \in DOMAIN x.w |-> NormW(x.w[n])]]
 \* MatchState(x, e, what): x = observed next state, else print the difference
 MatchState(x, e, what) ==
   IF ~CheckM THEN TRUE ELSE IF x = ObsWorld(Rec[l].obs) THEN TRUE
+  ELSE IF NormWorld(x) = NormWorld(ObsWorld(Rec[l].obs))
+       THEN PrintT(<<"HAVOC", ToJson([line |-> l, b |-> e.b, ev |-> e.ev, what |-> "log-id order"])>>)
   ELSE PrintT(<<"NONCONF", ToJson([line |-> l, b |-> e.b, ev |-> e.ev, what |-> what, diff |-> DiffWorld(x, ObsWorld(Rec[l].obs))])>>)
+
 \* Check(c, p, m, e, info): TRUE always; prints when the monitor c fails
 Check(c, p, m, e, info) == IF c THEN TRUE ELSE Viol(p, m, e, info)
 CheckMatch(c, e, what) == IF ~CheckM THEN TRUE ELSE IF c THEN TRUE ELSE NonConf(e, what)
@@ -99,9 +114,14 @@ NoPanic(e) == Check(e.res # "panic", "C06", "NoPanic", e, IF Has(e, "detail") TH
 IsEv(n) == l <= Len(Rec) /\ Rec[l].ev = n
 E == Rec[l]
 S2 == ObsWorld(Rec[l].obs)          \* the observed next state
+\* a wallet is "dirty" (C04 does not apply until a scan repairs it) once it holds a
+\* cancelled entry whose transaction was, or later is, broadcast or mined
+DirtyNow(s) == {w \in DOMAIN s.w : \E t \in DOMAIN s.w[w].txs :
+                   /\ s.w[w].txs[t].ty \in {"TxSentCancelled", "TxReceivedCancelled"}
+                   /\ s.w[w].txs[t].slate \in (s.pool \cup Mined(s)) \cap DOMAIN s.body}
 Step(hv2) == /\ l' = l + 1 /\ st' = S2 /\ hv' = HvIssued(hv2, S2)
              /\ StateMonitors(E, S2, hv2) /\ NoPanic(E)
-             /\ UNCHANGED aux
+             /\ aux' = [aux EXCEPT !.dirty = IF E.ev = "scan" /\ E.res = "ok" THEN (@ \ {E.w}) ELSE @ \cup DirtyNow(S2)]
 
 TReset == /\ IsEv("reset")
           /\ l' = l + 1 /\ st' = S2 /\ hv' = HvIssued(EmptyHist(DOMAIN S2.w), S2)
